@@ -27,6 +27,9 @@ def run(ctx):
     # the limit-reaching response announces `Connection: close`: the worker's force_close() cannot be undone before the head
     from .c02 import must_close_writers
     must_close_writers(ctx, "C18.R2")
+    from .c03 import manage_always_compares, chld_always_reaps
+    manage_always_compares(ctx, "C18.R4")
+    chld_always_reaps(ctx, "C18.R4")
     _alias(ctx, c03.r2, "C03.R2", "C18.R4")
     _alias(ctx, c03.r5, "C03.R5", "C18.R4")
     _alias(ctx, c04.r3, "C04.R3", "C18.R4")
